@@ -55,7 +55,7 @@ func (m HandlerMap) QueryService(name string) (*grpc.ServiceDesc, interface{}) {
 // This mirrors the method of the same name on *grpc.Server.
 func (m HandlerMap) GetServiceInfo() map[string]grpc.ServiceInfo {
 	ret := make(map[string]grpc.ServiceInfo, len(m))
-	for _, svc := range m {
+	for name, svc := range m {
 		methods := make([]grpc.MethodInfo, 0, len(svc.desc.Methods)+len(svc.desc.Streams))
 		for _, mtd := range svc.desc.Methods {
 			methods = append(methods, grpc.MethodInfo{Name: mtd.MethodName})
@@ -67,7 +67,7 @@ func (m HandlerMap) GetServiceInfo() map[string]grpc.ServiceInfo {
 				IsServerStream: mtd.ServerStreams,
 			})
 		}
-		ret[svc.desc.ServiceName] = grpc.ServiceInfo{
+		ret[name] = grpc.ServiceInfo{
 			Methods:  methods,
 			Metadata: svc.desc.Metadata,
 		}
